@@ -22,7 +22,7 @@ FUNCTIONS = ["http_accessor.HttpAccessor.__init__/fetch_file/fetch_chunk/file_ex
              "sharded_base.ShardCMC.populate_minishard_dict", "sharded_base.ReadableMiniShardCMC", "accessor.get_accessor_for_url (http scheme)"]
 STUBS = ["requests.Session -> model static-file server over the model file system: get/head, status codes, Range: bytes=a-b, "
          "raise_for_status as in requests; name.gz served under name with transparent content-encoding; one request "
-         "per run may misbehave: 404, 403, 500, 503, short / over-long / whole-file reply to a Range request, ConnectionError",
+         "per run may misbehave: 404, 403, 401, 410, 429, 500, 502, 503, 504, short / over-long / whole-file reply to a Range request, ConnectionError",
          "model file system, symbolic byte strings, zlib framing model (as C04)"]
 ASSUMPTIONS = ["a short reply to a non-Range request is detected by the transport (Content-Length), hence only modelled for Range requests"]
 EXPLANATION = ("A dataset with symbolic chunk payloads is written by the real local writers; the model server serves those files; "
@@ -31,11 +31,11 @@ EXPLANATION = ("A dataset with symbolic chunk payloads is written by the real lo
                "solver-chosen request misbehaving, the call must raise (DataAccessError for plain datasets).")
 BOUNDS = {"quick": "plain flat datasets (gzip on/off) with 3 chunks; sharded 2x2x2 and 3x2x1 grids with bit triples (0,0,0),(1,1,0),(1,0,1),"
                    "(2,2,0), raw+gzip, .shard files and legacy .index/.data pairs; every chunk position; 4 URL spellings; every "
-                   "request index x 9 fault kinds",
+                   "request index x 10 fault kinds",
           "thorough": "grids 2x2x2, 3x2x1, 3x3x2, 4x1x2, 2x1x1 x 7 bit triples, every fault at every request of every chunk read"}
 OUTSIDE = ["real sockets, TLS, redirects, content-encoding negotiation", "servers that corrupt bytes without changing lengths"]
 
-FAULTS = [404, 403, 500, 503, "conn", "short", "long", "ignore-range"]
+FAULTS = [404, 403, 500, 503, "conn", "short", "long", "ignore-range", 502, 410]
 URL = "http://h.test/data/ds"
 
 
@@ -131,7 +131,7 @@ def H_plain_fault(ctx, cfg):
     ctx.assume(z3.And(oi.e >= 0, oi.e < len(ops)))
     name, call = ops[oi.__index__()]
     fi = SInt.var("fault", "int")
-    kinds = [404, 403, 500, 503, "conn"]
+    kinds = [404, 403, 500, 503, "conn", 502, 504, 401, 429]
     ctx.assume(z3.And(fi.e >= 0, fi.e < len(kinds)))
     kind = kinds[fi.__index__()]
     pi = SInt.var("persistent", "int")
@@ -341,7 +341,7 @@ def _serve(directory):
                 k = str(H.fault[1])
                 if not (len(H.fault) > 2 and H.fault[2]):
                     H.fault = None
-                if k in ("404", "403", "500", "503"):
+                if k.isdigit():
                     self.send_error(int(k))
                     return
                 if k == "conn":
@@ -379,10 +379,10 @@ def _serve(directory):
 
         def do_HEAD(self):
             if H.fault and H.fault[0] == 0:
-                k = H.fault[1]
+                k = str(H.fault[1])
                 if not (len(H.fault) > 2 and H.fault[2]):
                     H.fault = None
-                if k in ("404", "403", "500", "503"):
+                if k.isdigit():
                     self.send_error(int(k))
                     return
                 if k == "conn":
